@@ -1,0 +1,5 @@
+//go:build !verif
+
+package dnsserver
+
+func verifYield(point string, arg interface{}) {}
